@@ -957,3 +957,30 @@ func init() {
 		return sc
 	}
 }
+
+func init() {
+	// closefull: the peer sends more messages than the local application
+	// ever reads, so the receive goroutine ends up blocked handing a message
+	// to a full recvDataChan; Close injected at any point of that.
+	builders["closefull"] = func(name string, p params) *Scenario {
+		sc := &Scenario{}
+		common(sc, p)
+		sc.Faults = FaultCfg{}
+		n := int(sc.N)
+		sc.ClientScripts = [][]Op{sends('c', n+2, -1)}
+		sc.ServerScripts = [][]Op{{{Kind: "sleep", D: 30 * time.Second}}}
+		sc.ExtraActions = closeActions(p.int("closers", 1))
+		until := p.dur("until", 5*time.Second)
+		sc.Goal = func(w *World) bool {
+			if w.closersUsed > 0 {
+				last, _ := w.extra["lastCloser"].(time.Duration)
+				return w.s.Now() >= last+8*time.Second
+			}
+			return w.s.Now() >= until
+		}
+		sc.Final = append(sc.Final, finalClose)
+		sc.Owns = map[string]bool{"panic": true, "leak": true}
+		sc.Cfg.Horizon = 60 * time.Second
+		return sc
+	}
+}
